@@ -583,4 +583,219 @@ theorem fclaimA_succ {n : Nat} (hE : FClaimE n) (hA : FClaimA n) : FClaimA (n + 
     | brk l rs1 => rw [h1] at he; exact he
     | cont l rs1 => rw [h1] at he; exact he
 
+/-! ## Applying a user function -/
+
+theorem foldl_setVar (fr : Nat) : ∀ (binds : List (String × Val)) (rs : Ref.St) (fr0 : Ref.Frame),
+    rs.frames[fr]? = some fr0 →
+    binds.foldl (fun s (p : String × Val) => Ref.setVar s fr p.1 p.2) rs
+      = { rs with frames := rs.frames.set fr { fr0 with vars := bindsVars fr0.vars binds } }
+  | [], rs, fr0, h => by
+    show rs = _
+    rw [show ({ fr0 with vars := bindsVars fr0.vars [] } : Ref.Frame) = fr0 from rfl, set_self_of_getElem? h]
+  | (x, v) :: binds, rs, fr0, h => by
+    have hset : Ref.setVar rs fr x v = { rs with frames := rs.frames.set fr { fr0 with vars := VM.assocSet fr0.vars x v } } := by
+      unfold Ref.setVar; rw [h]; rfl
+    show binds.foldl _ (Ref.setVar rs fr x v) = _
+    rw [hset, foldl_setVar fr binds _ { fr0 with vars := VM.assocSet fr0.vars x v }
+      (by show (rs.frames.set fr _)[fr]? = _; exact List.getElem?_set_self (lt_of_getElem?_some h))]
+    show ({ rs with frames := (rs.frames.set fr _).set fr _ } : Ref.St) = _
+    rw [List.set_set]; rfl
+
+theorem lookup_zip_map (f : Val → Val) (y : String) : ∀ (ps : List String) (vs : List Val),
+    (ps.zip (vs.map f)).lookup y = ((ps.zip vs).lookup y).map f
+  | [], _ => rfl
+  | _ :: _, [] => rfl
+  | p :: ps, v :: vs => by
+    simp only [List.map_cons, List.zip_cons_cons, List.lookup_cons]
+    cases (y == p) with
+    | true => rfl
+    | false => exact lookup_zip_map f y ps vs
+
+theorem lookup_zip_mem {y : String} {v : Val} : ∀ {ps : List String} {vs : List Val},
+    (ps.zip vs).lookup y = some v → y ∈ ps ∧ v ∈ vs
+  | [], _, h => by simp at h
+  | _ :: _, [], h => by simp at h
+  | p :: ps, w :: vs, h => by
+    simp only [List.zip_cons_cons, List.lookup_cons] at h
+    by_cases hy : (y == p) = true
+    · rw [hy] at h; simp only [Option.some.injEq] at h; subst h
+      exact ⟨by simp [show y = p by simpa using hy], by simp⟩
+    · have hy' : (y == p) = false := by simpa using hy
+      rw [hy'] at h
+      obtain ⟨h1, h2⟩ := lookup_zip_mem h
+      exact ⟨List.mem_cons_of_mem _ h1, List.mem_cons_of_mem _ h2⟩
+
+theorem lookup_zip_none {y : String} : ∀ {ps : List String} {vs : List Val}, y ∉ ps → (ps.zip vs).lookup y = none
+  | [], _, _ => rfl
+  | _ :: _, [], _ => rfl
+  | p :: ps, w :: vs, h => by
+    simp only [List.zip_cons_cons, List.lookup_cons]
+    have hne : (y == p) = false := by
+      have : y ≠ p := fun e => h (by simp [e])
+      simpa using this
+    rw [hne]
+    exact lookup_zip_none (fun hm => h (List.mem_cons_of_mem _ hm))
+
+/-- applying a closure object to evaluated arguments (already on the data stack, control already
+in the callee): prologue, body, epilogue, back in the caller — against `applyFn` -/
+def FClaimU (n : Nat) : Prop :=
+  ∀ m s₁ rs₁ env vid (vs : List Val) (D : List (Option Val)), RelF m s₁ rs₁ env → GoodFn m s₁ rs₁ vid →
+    s₁.data = vs.reverse.map some ++ D → (∀ v ∈ vs, VOk m s₁ rs₁ v) → vs.length = (fnOf s₁ vid).nargs →
+    match Ref.applyFn n (.fn (m vid)) (vs.map (trf m)) rs₁ with
+    | .ok v' rs' => ∃ (s' : St) (m' : Nat → Nat) (v : Val), ReachX (entered s₁ vid) s' ∧ s'.pc = s₁.pc + 1
+        ∧ s'.data = some v :: D ∧ v' = trf m' v ∧ RelF m' s' rs' env ∧ MExt s₁ m m' ∧ RExt rs₁ rs'
+        ∧ FrameF s₁ s' ∧ VOk m' s' rs' v
+    | .err rs' => FailsX (entered s₁ vid) rs'.trace
+    | .timeout => True
+    | .brk _ _ => False
+    | .cont _ _ => False
+
+theorem okParam_name {p : String} (h : okParam p = true) : okName p = true := by
+  unfold okParam at h; simp only [Bool.and_eq_true] at h; exact h.1
+
+theorem fclaimU_succ {n : Nat} (hB : FClaimB n) : FClaimU (n + 1) := by
+  intro m s₁ rs₁ env vid vs D hrel hg hd hvs hlen
+  obtain ⟨c, hc1, henv, hrest, hnd, hokp, hbody, hparams, hnargs, hvar, huser, hclo, ⟨p, hp1, hp2, hp3⟩,
+    t, b, tl, isFn, cb, gs0, gs1, self, hcode, htlt, htclo, hcomp, hsc0, hfname, hff⟩ := hg.clo
+  have hvl : vs.length = c.ps.length := by rw [hlen, hnargs]
+  -- the reference side
+  rw [Ref.applyFn]
+  simp only [hc1, Ref.bindParams, hrest, List.length_map, hvl, if_true, henv]
+  -- the reference state at the start of the body
+  have hnf : (Ref.newFrame rs₁ 0) = (rs₁.frames.length, { rs₁ with frames := rs₁.frames ++ [{ parent := some 0 }] }) := rfl
+  have hfold := foldl_setVar rs₁.frames.length (c.ps.zip (vs.map (trf m)))
+    { rs₁ with frames := rs₁.frames ++ [{ parent := some 0 }] } { parent := some 0 }
+    (by show (rs₁.frames ++ [_])[rs₁.frames.length]? = _; simp)
+  generalize hrsB : (c.ps.zip (vs.map (trf m))).foldl (fun s (p : String × Val) => Ref.setVar s rs₁.frames.length p.1 p.2)
+    { rs₁ with frames := rs₁.frames ++ [{ parent := some 0 }] } = rsB at hfold
+  have hfrB : rsB.frames = rs₁.frames ++ [({ vars := bindsVars [] (c.ps.zip (vs.map (trf m))), parent := some 0 } : Ref.Frame)] := by
+    rw [hfold]; show (rs₁.frames ++ [_]).set rs₁.frames.length _ = _
+    simp
+  have hclB : rsB.clos = rs₁.clos := by rw [hfold]
+  have hhpB : rsB.heap = rs₁.heap := by rw [hfold]
+  have htrB : rsB.trace = rs₁.trace := by rw [hfold]
+  show (match (match Ref.evalBegin n c.body rs₁.frames.length
+        ((c.ps.zip (vs.map (trf m))).foldl (fun s (p : String × Val) => Ref.setVar s rs₁.frames.length p.1 p.2)
+          { rs₁ with frames := rs₁.frames ++ [{ parent := some 0 }] }) with
+      | .ok v s => Ref.R.ok v s | .brk _ s => .err s | .cont _ s => .err s | r => r) with
+    | .ok v' rs' => _ | .err rs' => _ | .timeout => _ | .brk _ _ => _ | .cont _ _ => _)
+  rw [hrsB]
+  -- the machine: function scope, parameters
+  have hcur1 := hrel.ctx
+  obtain ⟨b0, hch, hfc⟩ := hcur1
+  have a2 : At (entered s₁ vid) [] (.addFuncScope t)
+      ((c.ps.map Instr.popStackPutEnv).reverse ++ b ++ [.removeScope, .ret]) :=
+    ⟨huser, by show (fnOf s₁ vid).code = _; rw [hcode]; simp [fnCode], rfl⟩
+  have r2 : ReachX (entered s₁ vid) ((entered s₁ vid).pushFnScope t) :=
+    (Reach.step a2 (fun f => exec_addFuncScope f t _)).toX
+  generalize hs3 : (entered s₁ vid).pushFnScope t = s₃ at r2
+  have hzl : (c.ps.zip vs).map (·.1) = c.ps := List.map_fst_zip (by omega)
+  have hzr : (c.ps.zip vs).map (·.2) = vs := List.map_snd_zip (by omega)
+  have hpairs1 : ((c.ps.zip vs).reverse).map (fun p => Instr.popStackPutEnv p.1) = (c.ps.map Instr.popStackPutEnv).reverse := by
+    have := congrArg (List.map Instr.popStackPutEnv) hzl
+    rw [List.map_map] at this
+    rw [List.map_reverse]; exact congrArg List.reverse this
+  have hpairs2 : ((c.ps.zip vs).reverse).map (fun p => some p.2) = vs.reverse.map some := by
+    have := congrArg (List.map (some : Val → Option Val)) hzr
+    rw [List.map_map] at this
+    rw [List.map_reverse, List.map_reverse]; exact congrArg List.reverse this
+  have hsc3 : s₃.scopes = s₁.scopes ++ [({ isFunction := true, myFunction := some t } : Scope)] := by subst hs3; rfl
+  have hscope3 : scopeOf s₃ s₁.scopes.length = { isFunction := true, myFunction := some t } := by
+    unfold scopeOf; rw [hsc3]; simp [List.getD_eq_getElem?_getD]
+  have r4 := reach_params (c.ps.zip vs).reverse s₃ [.addFuncScope t] (b ++ [.removeScope, .ret]) D s₁.scopes.length s₁.linear
+    (by subst hs3; exact huser)
+    (by subst hs3; show (fnOf s₁ vid).code = _; rw [hcode, hpairs1]; simp [fnCode])
+    (by subst hs3; rfl) (by subst hs3; show s₁.data = _; rw [hd, hpairs2]) (by subst hs3; rfl)
+    (by rw [hsc3]; simp) (fun x _ => by rw [hscope3]; rfl)
+    (by rw [List.map_reverse, hzl]; exact nodup_reverse' hnd)
+  generalize hs4 : afterParams s₃ s₁.scopes.length (c.ps.zip vs).reverse D = s₄ at r4
+  have hsc4 : s₄.scopes = s₁.scopes ++ [({ vars := bindsVars [] (c.ps.zip vs).reverse, isFunction := true, myFunction := some t } : Scope)] := by
+    subst hs4; unfold afterParams
+    show s₃.scopes.set s₁.scopes.length _ = _
+    rw [hscope3, hsc3]; simp
+  have hlin4 : s₄.linear = some s₁.scopes.length :: s₁.linear := by subst hs4; subst hs3; rfl
+  have hfns4 : s₄.fns = s₁.fns := by subst hs4; subst hs3; rfl
+  have hcur4 : s₄.curfunc = vid := by subst hs4; subst hs3; rfl
+  have hpc4 : s₄.pc = ((1 + c.ps.length : Nat) : Int) := by
+    subst hs4; subst hs3; show (0 : Int) + 1 + ((c.ps.zip vs).reverse.length : Nat) = _
+    simp [hvl] <;> omega
+  have hd4 : s₄.data = D := by subst hs4; rfl
+  have haddr4 : s₄.addr = some (s₁.curfunc, s₁.pc + 1) :: s₁.addr := by subst hs4; subst hs3; rfl
+  have hsusp4 : s₄.suspended = s₁.suspended := by subst hs4; subst hs3; rfl
+  have hloops4 : s₄.loops = s₁.loops := by subst hs4; subst hs3; rfl
+  -- the relation at the start of the body
+  have hndz : ((c.ps.zip vs).map (·.1)).Nodup := by rw [hzl]; exact hnd
+  have hndz' : ((c.ps.zip (vs.map (trf m))).map (·.1)).Nodup := by
+    rw [List.map_fst_zip (by simp; omega)]; exact hnd
+  have relB : RelF m s₄ rsB rs₁.frames.length := by
+    refine hrel.enter hg s₄ rsB t _ _ hsc4 hlin4 hfns4 hcur4 (by subst hs4; subst hs3; rfl) (by subst hs4; subst hs3; rfl)
+      hfrB hclB hhpB htrB htclo (fun y => ?_) (fun y v _ hv => ?_) (fun h hh => ?_)
+    · rw [lookup_bindsVars, lookup_bindsVars, List.reverse_reverse, lookup_reverse_of_nodup _ hndz', lookup_zip_map]
+      cases (c.ps.zip vs).lookup y <;> rfl
+    · rw [lookup_bindsVars, List.reverse_reverse] at hv
+      cases hz : (c.ps.zip vs).lookup y with
+      | none => rw [hz] at hv; cases hv
+      | some w => rw [hz] at hv; injection hv with hv; subst hv; exact hvs w (lookup_zip_mem hz).2
+    · rw [lookup_bindsVars, lookup_reverse_of_nodup _ hndz', lookup_zip_none]
+      · rfl
+      · intro hm
+        have := okName_binder (okParam_name (hokp h hm))
+        unfold okBinder at this
+        simp only [Bool.not_eq_true', List.contains_eq_mem, decide_eq_false_iff_not] at this
+        exact this hh
+  -- the body
+  have hseg4 : Seg s₄ ([.addFuncScope t] ++ (c.ps.map Instr.popStackPutEnv).reverse) b [.removeScope, .ret] :=
+    ⟨by rw [hcur4]; unfold fnOf; rw [hfns4]; exact huser, by rw [hcur4]; show (fnOf s₄ vid).code = _; unfold fnOf; rw [hfns4]; exact hcode.trans (by simp [fnCode]),
+      by rw [hpc4]; simp; omega⟩
+  have hsim := hB self c.body hbody hff isFn cb gs0 ((b, tl), gs1) hcomp hfname m s₄ rsB rs₁.frames.length _ _ relB hseg4
+  have hreach4 : ReachX (entered s₁ vid) s₄ := r2.trans r4
+  cases hres : Ref.evalBegin n c.body rs₁.frames.length rsB with
+  | ok v' rs' =>
+    rw [hres] at hsim
+    obtain ⟨s₅, m₅, v, r5, l5, hv5, rel5, hm5, ext5, fr5, hcl5⟩ := hsim
+    simp only
+    -- removeScope, ret
+    have hcode5 : (fnOf s₅ s₅.curfunc).code = fnCode t c.ps b := by rw [l5.fn, hcur4]; unfold fnOf; rw [hfns4]; exact hcode
+    have huser5 : (fnOf s₅ s₅.curfunc).user = false := by rw [l5.fn, hcur4]; unfold fnOf; rw [hfns4]; exact huser
+    have a5 : At s₅ ([.addFuncScope t] ++ (c.ps.map Instr.popStackPutEnv).reverse ++ b) .removeScope [.ret] :=
+      ⟨huser5, by rw [hcode5]; simp [fnCode], by rw [l5.pc, hpc4]; simp; omega⟩
+    have hlin5 : s₅.linear = some s₁.scopes.length :: s₁.linear := by rw [fr5.linear, hlin4]
+    have r6 : ReachX s₅ { s₅ with pc := s₅.pc + 1, linear := s₁.linear } :=
+      (Reach.step a5 (fun f => by rw [exec_removeScope, hlin5])).toX
+    have a6 : At ({ s₅ with pc := s₅.pc + 1, linear := s₁.linear } : St)
+        ([.addFuncScope t] ++ (c.ps.map Instr.popStackPutEnv).reverse ++ b ++ [.removeScope]) .ret [] :=
+      ⟨huser5, by show (fnOf s₅ s₅.curfunc).code = _; rw [hcode5]; simp [fnCode],
+        by show s₅.pc + 1 = _; rw [l5.pc, hpc4]; simp; omega⟩
+    have haddr5 : s₅.addr = some (s₁.curfunc, s₁.pc + 1) :: s₁.addr := by rw [fr5.addr, haddr4]
+    have r7 : ReachX ({ s₅ with pc := s₅.pc + 1, linear := s₁.linear } : St)
+        { s₅ with pc := s₁.pc + 1, linear := s₁.linear, addr := s₁.addr, curfunc := s₁.curfunc } :=
+      (Reach.step a6 (fun f => by rw [exec_ret]; show (match s₅.addr with | [] => _ | none :: _ => _ | some (fn, pc) :: rest => _) = _; rw [haddr5])).toX
+    have hfl14 : ∀ i, i < s₁.scopes.length → isFnScope s₄ i = isFnScope s₁ i := fun i hi => by
+      unfold isFnScope scopeOf; rw [hsc4]; simp only [List.getD_eq_getElem?_getD, List.getElem?_append_left hi]
+    have hscl14 : s₁.scopes.length ≤ s₄.scopes.length := by rw [hsc4]; simp
+    have hflags : ∀ i, i < s₁.scopes.length → isFnScope s₅ i = isFnScope s₁ i := fun i hi =>
+      (fr5.flags i (Nat.lt_of_lt_of_le hi hscl14)).trans (hfl14 i hi)
+    have hfl : s₁.fns.length ≤ s₅.fns.length := by rw [← hfns4]; exact fr5.fnsLen
+    have hfo : ∀ id, id < s₁.fns.length → fnOf s₅ id = fnOf s₁ id := fun id hid =>
+      (fr5.fns id (by rw [hfns4]; exact hid)).trans (by unfold fnOf; rw [hfns4])
+    have hext1B : FramesExt rs₁ rsB := fun i fr hf =>
+      ⟨fr, by rw [hfrB, List.getElem?_append_left (lt_of_getElem?_some hf)]; exact hf, rfl⟩
+    have hrext : RExt rs₁ rs' := ⟨hext1B.trans ext5.1, fun i c hc => ext5.2 i c (by rw [hclB]; exact hc)⟩
+    refine ⟨{ s₅ with pc := s₁.pc + 1, linear := s₁.linear, addr := s₁.addr, curfunc := s₁.curfunc }, m₅, v,
+      ((hreach4.trans r5).trans r6).trans r7, rfl, by show s₅.data = _; rw [l5.data, hd4], hv5, ?_,
+      fun id hid => hm5 id (by rw [hfns4]; exact hid), hrext, ?_, ?_⟩
+    · exact hrel.back rel5 rfl rfl rfl rfl rfl rfl hflags hfl hfo hrext.1
+    · exact ⟨⟨rfl, rfl, rfl, by show s₅.suspended = _; rw [fr5.susp, hsusp4], hfl, hfo,
+        by show s₁.loops.length ≤ s₅.loops.length; rw [← hloops4]; exact fr5.loopsLen,
+        fun id hid => by show s₅.loops.getD id {} = _; rw [← hloops4]; exact fr5.loops id (by rw [hloops4]; exact hid)⟩,
+        Nat.le_trans hscl14 fr5.scLen, hflags⟩
+    · exact ValIn.mono hcl5 (fun id hgd => hgd.mono (Nat.le_refl _) (fun _ _ => rfl) (ClosExt.refl _) rfl)
+  | err rs' =>
+    rw [hres] at hsim
+    simp only
+    exact FailsX.of_reach hreach4 hsim
+  | timeout => trivial
+  | brk l rs' => rw [hres] at hsim; exact hsim.elim
+  | cont l rs' => rw [hres] at hsim; exact hsim.elim
+
 end ZygoVerif.Sim
